@@ -15,8 +15,12 @@ from ..shims import import_dclab
 PID = "C13"
 CFG = ("INIT Init\nNEXT Next\nCONSTRAINT Emit\nINVARIANT Closure\n"
        "CHECK_DEADLOCK FALSE\n")
-FEATS = ("deform", "area_um", "image", "mask", "contour", "trace", "fl1_max",
-         "time", "frame", "pos_x", "index")
+BASE_FEATS = ("deform", "area_um", "contour", "trace", "fl1_max",
+              "time", "frame", "pos_x", "index")
+
+
+def feats_of(content):
+    return BASE_FEATS + tuple(sorted(content))
 KEYWORDS = {
     "feature length differs from the event count": "wrong event count",
     "image size contradicts the ROI metadata": "roi size",
@@ -32,12 +36,13 @@ KEYWORDS = {
 }
 
 
-def produce(path_kind, d):
+def produce(path_kind, d, content):
     """a file written by one of dclab's write paths"""
     import dclab
     from dclab import cli
     from dclab.rtdc_dataset import RTDCWriter
     n = 8
+    FEATS = feats_of(content)
     ids = list(range(1, n + 1))
     base = d / "base.rtdc"
     gen.write_rtdc(base, ids, feats=FEATS, logs={"l": ["x"]})
@@ -125,7 +130,7 @@ def _case(job):
     out = []
     try:
         try:
-            p = produce(case["path"], d)
+            p = produce(case["path"], d, case["content"])
         except BaseException as exc:
             return dict(case), [("write path %s raises %s" % (
                 case["path"], type(exc).__name__), repr(exc)[:200])]
@@ -191,7 +196,9 @@ def main(tier, seed, replay=None):
     rep = findings.Reporter(PID, ev)
     ev.rule = ("CheckerSpec enumerates write path (writer, writer with "
                "appends, export, filtered export, compress, repack, "
-               "condense, split part, join) x every set of at most two of 12 "
+               "condense, split part, join) x image-shaped content (every "
+               "subset of image, image_bg, mask; subsets other than "
+               "image+mask with the corruptions that depend on it) x every set of at most two of 12 "
                "seeded corruptions (feature length, ROI size, unknown "
                "feature, missing mandatory key, index order, channel count, "
                "laser count, samples per event, external link, non-positive "
